@@ -419,39 +419,10 @@ func runSim(id int, c simCase, cli, dir string) {
 		out.Line("U %s", ruleDump(r))
 	}
 	res := common.Guard(func() string {
-		bmf := filepath.Join(dir, "bm.json")
-		sbf := filepath.Join(dir, "sb.json")
-		csv := filepath.Join(dir, "rep.csv")
-		os.Remove(csv)
-		b, err := json.Marshal(bm.Jsoner())
-		if err != nil {
-			return "X harness-error marshal " + err.Error()
+		so, se, csvText, rc, herr := runCLI(bm, sb, c, cli, dir)
+		if herr != "" {
+			return "X " + herr
 		}
-		os.WriteFile(bmf, b, 0o644)
-		b, _ = json.Marshal(sb) // as cmd/simbox writes the file
-		os.WriteFile(sbf, b, 0o644)
-		args := []string{"-bondmachine-file", bmf, "-sim", "-simbox-file", sbf, "-sim-interactions", strconv.Itoa(c.ticks)}
-		if c.stop >= 0 {
-			args = append(args, "-sim-stop-on-valid-of", strconv.Itoa(c.stop))
-		}
-		if c.report {
-			args = append(args, "-sim-report", csv)
-		}
-		cmd := exec.Command(cli, args...)
-		var so, se bytes.Buffer
-		cmd.Stdout, cmd.Stderr = &so, &se
-		done := make(chan error, 1)
-		if err := cmd.Start(); err != nil {
-			return "X harness-error start " + err.Error()
-		}
-		go func() { done <- cmd.Wait() }()
-		select {
-		case <-done:
-		case <-time.After(20 * time.Second):
-			cmd.Process.Kill()
-			return "X timeout"
-		}
-		rc := cmd.ProcessState.ExitCode()
 		// ---- canonicalise stdout
 		var lines []string
 		tick, lastTick := -1, -1
@@ -474,15 +445,13 @@ func runSim(id int, c simCase, cli, dir string) {
 			}
 		}
 		var csvLines []string
-		if c.report {
-			if cb, err := os.ReadFile(csv); err == nil {
-				rows := strings.Split(strings.TrimSuffix(string(cb), "\n"), "\n")
-				for i, rw := range rows {
-					if i == 0 {
-						csvLines = append(csvLines, "C hdr="+rw)
-					} else {
-						csvLines = append(csvLines, "C row="+rw)
-					}
+		if c.report && csvText != nil {
+			rows := strings.Split(strings.TrimSuffix(*csvText, "\n"), "\n")
+			for i, rw := range rows {
+				if i == 0 {
+					csvLines = append(csvLines, "C hdr="+rw)
+				} else {
+					csvLines = append(csvLines, "C row="+rw)
 				}
 			}
 		}
@@ -505,7 +474,76 @@ func runSim(id int, c simCase, cli, dir string) {
 		return strings.Join(append(append(lines, csvLines...), "X "+cls), "\n")
 	})
 	out.Line("%s", res)
+	// the property itself, directly on the implementation: a suspended rule has no effect at all,
+	// i.e. the run is byte for byte the run of the list with the suspended rules deleted
+	anySusp := false
+	sb2 := new(simbox.Simbox)
+	for _, r := range sb.Rules {
+		if r.Suspended {
+			anySusp = true
+		} else {
+			sb2.Rules = append(sb2.Rules, r)
+		}
+	}
+	if anySusp {
+		out.Line("%s", common.Guard(func() string {
+			so1, _, csv1, rc1, h1 := runCLI(bm, sb, c, cli, dir)
+			so2, _, csv2, rc2, h2 := runCLI(bm, sb2, c, cli, dir)
+			same := h1 == "" && h2 == "" && so1.String() == so2.String() && rc1 == rc2 &&
+				((csv1 == nil) == (csv2 == nil)) && (csv1 == nil || *csv1 == *csv2)
+			if same {
+				return "Z susp=ok"
+			}
+			return "Z susp=fail"
+		}))
+	}
 	out.Line("G")
+}
+
+// runCLI writes the machine and the rule file as the tools do and runs the real simulator
+func runCLI(bm *bondmachine.Bondmachine, sb *simbox.Simbox, c simCase, cli, dir string) (so, se bytes.Buffer, csvText *string, rc int, herr string) {
+	bmf := filepath.Join(dir, "bm.json")
+	sbf := filepath.Join(dir, "sb.json")
+	csv := filepath.Join(dir, "rep.csv")
+	os.Remove(csv)
+	b, err := json.Marshal(bm.Jsoner())
+	if err != nil {
+		herr = "harness-error marshal " + err.Error()
+		return
+	}
+	os.WriteFile(bmf, b, 0o644)
+	b, _ = json.Marshal(sb) // as cmd/simbox writes the file
+	os.WriteFile(sbf, b, 0o644)
+	args := []string{"-bondmachine-file", bmf, "-sim", "-simbox-file", sbf, "-sim-interactions", strconv.Itoa(c.ticks)}
+	if c.stop >= 0 {
+		args = append(args, "-sim-stop-on-valid-of", strconv.Itoa(c.stop))
+	}
+	if c.report {
+		args = append(args, "-sim-report", csv)
+	}
+	cmd := exec.Command(cli, args...)
+	cmd.Stdout, cmd.Stderr = &so, &se
+	done := make(chan error, 1)
+	if err := cmd.Start(); err != nil {
+		herr = "harness-error start " + err.Error()
+		return
+	}
+	go func() { done <- cmd.Wait() }()
+	select {
+	case <-done:
+	case <-time.After(20 * time.Second):
+		cmd.Process.Kill()
+		herr = "timeout"
+		return
+	}
+	rc = cmd.ProcessState.ExitCode()
+	if c.report {
+		if cb, err := os.ReadFile(csv); err == nil {
+			t := string(cb)
+			csvText = &t
+		}
+	}
+	return
 }
 
 var simObjs = map[string][]string{
@@ -533,7 +571,9 @@ func genSim(r *common.Rng) simCase {
 		}
 	}
 	per := func() string { return []string{"1", "2", "2", "3", "4", "5", "7"}[r.Intn(7)] }
-	val := func() string { return []string{"0", "1", "5", "9", "17", "200", "255", "256", "300", "007"}[r.Intn(10)] }
+	val := func() string {
+		return []string{"0", "1", "5", "9", "17", "200", "255", "256", "300", "007"}[r.Intn(10)]
+	}
 	ty := func() string { return []string{"unsigned", "unsigned", "", "hex", "bin"}[r.Intn(5)] }
 	n := 2 + r.Intn(7)
 	size := 0
@@ -571,7 +611,7 @@ func genSim(r *common.Rng) simCase {
 		case k < 20:
 			add(pick(r, []string{"onvalid:get:", "onexit:get:", "onrecv:show:", "onrecv:get:"}) + pick(r, io))
 		case k < 21:
-			add("config:" + pick(r, []string{"get_ticks", "get_all:unsigned", "get_all_internal:hex", "show_all:hex", "show_all_internal:unsigned", "get_all:"}))
+			add("config:" + pick(r, []string{"get_ticks", "get_all:unsigned", "get_all_internal:hex", "show_all:hex", "show_all_internal:unsigned", "get_all:", "show_pc", "show_proc_regs_post"}))
 		case k < 22:
 			add("absolute:" + tk() + ":show:" + pick(r, io))
 		default:
